@@ -1,5 +1,6 @@
 import PycModel.Properties.Tables
 import PycModel.Proofs.ClimbConcrete
+import PycModel.Proofs.OperandId
 /-!
 # C02 — expression ASTs follow C precedence, associativity and operator binding
 
@@ -55,5 +56,43 @@ example (a b c d e : Val) :
   refine .node 5 8 _ _ _ _ (by decide) (by decide) ?_ (.leaf _ _)
   refine .node 8 8 _ _ _ _ (by decide) (by decide) (.leaf _ _) ?_
   exact .node 9 9 _ _ _ _ (by decide) (by decide) (.leaf _ _) (.leaf _ _)
+
+
+/-! ## the operand hypothesis is satisfiable: identifiers -/
+open PycModel.OperandId
+
+/-- **End to end.** Expressions built from identifiers and binary operators, of any size and
+nesting, parse to exactly the tree the grammar derives - from any state that sees them followed
+by a token that is neither a binary nor a postfix operator; no hypothesis about operands is left.
+(`OperandId.identifier_expressions_parse`, restated where the property theorems live.) -/
+theorem identifier_expressions_parse_as_the_grammar_says (e : IT) (m : Nat) (s : PState)
+    (hwf : WF binPrec m (e.toBT s.idx)) (stop : Tk) (hstop1 : binPrec stop.1 = none)
+    (hstop2 : stop.1 ∉ postfixStarters) (rest : List Tk) (hs : SeesT s (e.flat ++ stop :: rest)) :
+    ∃ F0, ∀ F, F0 ≤ F → ∃ s', run F (.binaryExpression m none) s = .ok (toVal (e.toBT s.idx)) s' ∧
+      SeesT s' (stop :: rest) :=
+  identifier_expressions_parse e m s hwf stop hstop1 hstop2 rest hs
+
+/-- non-vacuity of the end-to-end statement: `a - b * c - d == e ;` from the initial state -/
+example : ∃ F0, ∀ F, F0 ≤ F → ∃ s',
+    run F (.binaryExpression 0 none)
+      (initState ([("ID", "a"), ("MINUS", "-"), ("ID", "b"), ("TIMES", "*"), ("ID", "c"), ("MINUS", "-"),
+                   ("ID", "d"), ("EQ", "=="), ("ID", "e"), ("SEMI", ";")].map (fun t => SEv.tok t.1 t.2) ++ [.eof]))
+      = .ok (mk .BinaryOp (some ⟨"", 0, some 1⟩) [.str "==",
+              mk .BinaryOp (some ⟨"", 0, some 1⟩) [.str "-",
+                mk .BinaryOp (some ⟨"", 0, some 1⟩) [.str "-", idNode 0 "a",
+                  mk .BinaryOp (some ⟨"", 2, some 3⟩) [.str "*", idNode 2 "b", idNode 4 "c"]],
+                idNode 6 "d"],
+              idNode 8 "e"]) s' ∧ SeesT s' [("SEMI", ";")] := by
+  let e : IT := .node "EQ" "=="
+    (.node "MINUS" "-" (.node "MINUS" "-" (.leaf "a") (.node "TIMES" "*" (.leaf "b") (.leaf "c"))) (.leaf "d"))
+    (.leaf "e")
+  have hwf : WF binPrec 0 (e.toBT 0) := by
+    refine .node 0 5 _ _ _ _ (by decide) (by decide) ?_ (.leaf _ _)
+    refine .node 5 8 _ _ _ _ (by decide) (by decide) ?_ (.leaf _ _)
+    refine .node 8 8 _ _ _ _ (by decide) (by decide) (.leaf _ _) ?_
+    exact .node 9 9 _ _ _ _ (by decide) (by decide) (.leaf _ _) (.leaf _ _)
+  have hs := seesT_init [("ID", "a"), ("MINUS", "-"), ("ID", "b"), ("TIMES", "*"), ("ID", "c"), ("MINUS", "-"),
+    ("ID", "d"), ("EQ", "=="), ("ID", "e"), ("SEMI", ";")] (by decide)
+  exact identifier_expressions_parse e 0 _ hwf ("SEMI", ";") (by decide) (by decide) [] hs
 
 end PycModel.C02
